@@ -1250,8 +1250,16 @@ def inline_simple_generators(tree: ast.Module) -> int:
     import copy
     count = 0
     # a private module-level generator referenced once in the whole module is the local generator of the function that uses it
+    # (or in several functions, once each, always as the iterable of a `for`)
+    def _only_loop_sources(name):
+        refs_ = [x for x in ast.walk(tree) if isinstance(x, ast.Name) and x.id == name]
+        fors_ = [l_.iter.func for l_ in ast.walk(tree) if isinstance(l_, ast.For) and isinstance(l_.iter, ast.Call) and isinstance(l_.iter.func, ast.Name)]
+        per_fn = [sum(1 for x in ast.walk(f_) if isinstance(x, ast.Name) and x.id == name) for f_ in ast.walk(tree)
+                  if isinstance(f_, ast.FunctionDef) and not any(isinstance(g_, ast.FunctionDef) and g_ is not f_ and any(x is y for x in refs_ for y in ast.walk(g_))
+                                                                 for g_ in ast.walk(f_))]
+        return bool(refs_) and all(any(r is f for f in fors_) for r in refs_) and all(k_ <= 1 for k_ in per_fn)
     lifted = [n for n in getattr(tree, 'body', []) if isinstance(n, ast.FunctionDef) and n.name.startswith('_') and not n.name.startswith('__')
-              and sum(1 for x in ast.walk(tree) if isinstance(x, ast.Name) and x.id == n.name) == 1
+              and (sum(1 for x in ast.walk(tree) if isinstance(x, ast.Name) and x.id == n.name) == 1 or _only_loop_sources(n.name))
               and not any(isinstance(x, ast.Constant) and x.value == n.name for x in ast.walk(tree))]
     for fn in [x for x in ast.walk(tree) if isinstance(x, (ast.FunctionDef, ast.AsyncFunctionDef))]:
         for g in [n for n in fn.body if isinstance(n, ast.FunctionDef)] + [n for n in lifted if n is not fn and not any(n is y for y in ast.walk(fn))]:
@@ -1287,7 +1295,13 @@ def inline_simple_generators(tree: ast.Module) -> int:
                         return steady(e.value) and not any(isinstance(n, ast.Attribute) and n.attr == e.attr and isinstance(n.ctx, (ast.Store, ast.Del))
                                                            for n in ast.walk(fn))
                     return False
-                if not all(steady(a) for a in use.iter.args):
+                def once_at_start(pn):
+                    # the parameter is read exactly once, as the iterable of the generator's first statement: evaluated when the
+                    # consumer starts the loop, in both spellings - any argument expression will do
+                    reads = [x for x in ast.walk(g) if isinstance(x, ast.Name) and x.id == pn]
+                    body0 = [x for x in g.body if not (isinstance(x, ast.Expr) and isinstance(x.value, ast.Constant))]
+                    return len(reads) == 1 and body0 and isinstance(body0[0], ast.For) and body0[0].iter is reads[0]
+                if not all(steady(a) or once_at_start(pn) for pn, a in zip(gparams, use.iter.args)):
                     continue
                 gsub = dict(zip(gparams, use.iter.args))
 
@@ -1353,7 +1367,7 @@ def inline_simple_generators(tree: ast.Module) -> int:
                     break
             if done:
                 fn.body = [x for x in fn.body if x is not g]
-                if any(g is x for x in lifted):
+                if any(g is x for x in lifted) and not any(isinstance(x, ast.Name) and x.id == g.name for x in ast.walk(tree)):
                     tree.body = [x for x in tree.body if x is not g]
                     lifted = [x for x in lifted if x is not g]
                 count += 1
@@ -2552,4 +2566,307 @@ def fold_list_building(tree: ast.Module) -> int:
                 new = ast.copy_location(ast.Assign(targets=[ast.Name(id=x, ctx=ast.Store())], value=ast.List(elts=elts, ctx=ast.Load())), blk[j - 1])
                 blk[i - 1:j] = [ast.fix_missing_locations(new)]
                 n += 1
+    return n
+
+
+def inline_private_byte_constants(tree: ast.Module) -> int:
+    """a private module-level constant `_NAME = bytes([<constants / enum members>])`, bound once and never shadowed, is its defining
+    expression wherever a function reads it (bytes are immutable: sharing the object cannot be observed)"""
+    import copy
+    n = 0
+    consts = {}
+    for st in tree.body:
+        if isinstance(st, ast.Assign) and len(st.targets) == 1 and isinstance(st.targets[0], ast.Name) and st.targets[0].id.startswith('_') \
+                and isinstance(st.value, ast.Call) and isinstance(st.value.func, ast.Name) and st.value.func.id == 'bytes' and len(st.value.args) == 1 \
+                and isinstance(st.value.args[0], (ast.List, ast.Tuple)) and not st.value.keywords \
+                and all(isinstance(e, ast.Constant) or (isinstance(e, ast.Attribute) and isinstance(e.value, ast.Name)) for e in st.value.args[0].elts):
+            consts[st.targets[0].id] = st.value
+    for name in list(consts):
+        if sum(1 for x in ast.walk(tree) if isinstance(x, ast.Name) and x.id == name and isinstance(x.ctx, (ast.Store, ast.Del))) != 1 \
+                or any(isinstance(a, ast.arg) and a.arg == name for a in ast.walk(tree)):
+            del consts[name]
+    if not consts:
+        return 0
+
+    class R(ast.NodeTransformer):
+        def visit_Name(self, x):
+            nonlocal n
+            if isinstance(x.ctx, ast.Load) and x.id in consts:
+                n += 1
+                return ast.copy_location(copy.deepcopy(consts[x.id]), x)
+            return x
+    for f in [x for x in ast.walk(tree) if isinstance(x, ast.FunctionDef)]:
+        f.body = [R().visit(b) for b in f.body]
+    if n:
+        ast.fix_missing_locations(tree)
+    return n
+
+
+def dissolve_missing_dicts(tree: ast.Module) -> int:
+    """a module-level `class K(dict)` whose only member is
+           def __missing__(self, k): v = E; self[k] = v; return v          (E over len(self) and constants)
+    held in a field made by `self.F = K()`: a lookup `x = self.F[k]` is `if k not in self.F: self.F[k] = E'` followed by
+    `x = self.F[k]` (E' = E with `self` read as `self.F`), and the field is a plain dict.  Only when every subscript load of the
+    field is such a statement (k a plain name); otherwise nothing is changed."""
+    import copy
+    n = 0
+    for K in [c for c in tree.body if isinstance(c, ast.ClassDef)]:
+        if len(K.bases) != 1 or ast.unparse(K.bases[0]).split('[')[0] != 'dict' or K.decorator_list:
+            continue
+        body = [x for x in K.body if not (isinstance(x, ast.Expr) and isinstance(x.value, ast.Constant))]
+        if len(body) != 1 or not isinstance(body[0], ast.FunctionDef) or body[0].name != '__missing__' or len(body[0].args.args) != 2:
+            continue
+        m = body[0]
+        S, kp = m.args.args[0].arg, m.args.args[1].arg
+        mb = [x for x in m.body if not (isinstance(x, ast.Expr) and isinstance(x.value, ast.Constant))]
+        if not (len(mb) == 3 and isinstance(mb[0], ast.Assign) and len(mb[0].targets) == 1 and isinstance(mb[0].targets[0], ast.Name)
+                and isinstance(mb[1], ast.Assign) and ast.unparse(mb[1].targets[0]) == f'{S}[{kp}]' and isinstance(mb[1].value, ast.Name)
+                and mb[1].value.id == mb[0].targets[0].id and isinstance(mb[2], ast.Return) and isinstance(mb[2].value, ast.Name)
+                and mb[2].value.id == mb[0].targets[0].id):
+            continue
+        E = mb[0].value
+        if any(isinstance(x, ast.Name) and x.id == kp for x in ast.walk(E)) or any(isinstance(x, (ast.Call,)) and not (isinstance(x.func, ast.Name) and x.func.id == 'len')
+                                                                                     for x in ast.walk(E)):
+            continue
+        # the fields made from K
+        makes = [a for a in ast.walk(tree) if isinstance(a, (ast.Assign, ast.AnnAssign)) and isinstance(a.value, ast.Call) and isinstance(a.value.func, ast.Name)
+                 and a.value.func.id == K.name and not a.value.args and not a.value.keywords]
+        other_refs = [x for x in ast.walk(tree) if isinstance(x, ast.Name) and x.id == K.name and not any(x is a.value.func for a in makes)]
+        if not makes or other_refs:
+            continue
+        fields = set()
+        for a in makes:
+            t = a.targets[0] if isinstance(a, ast.Assign) and len(a.targets) == 1 else (a.target if isinstance(a, ast.AnnAssign) else None)
+            if isinstance(t, ast.Attribute) and isinstance(t.value, ast.Name) and t.value.id == 'self':
+                fields.add(t.attr)
+            else:
+                fields = None
+                break
+        if not fields or len(fields) != 1:
+            continue
+        F = next(iter(fields))
+        FT = f'self.{F}'
+        sites, bad = [], False
+        for blk in _blocks(tree):
+            for i, st in enumerate(blk):
+                loads = [x for x in ast.walk(st) if isinstance(x, ast.Subscript) and isinstance(x.ctx, ast.Load) and ast.unparse(x.value) == FT]
+                if not loads:
+                    continue
+                if isinstance(st, (ast.If, ast.For, ast.While, ast.With, ast.Try, ast.FunctionDef, ast.ClassDef)):
+                    own = [x for x in loads if any(x is y for part in ([st.test] if isinstance(st, (ast.If, ast.While)) else [st.iter] if isinstance(st, ast.For) else [])
+                                                   for y in ast.walk(part))]
+                    if own:
+                        bad = True
+                    continue
+                if len(loads) == 1 and isinstance(st, ast.Assign) and st.value is loads[0] and isinstance(loads[0].slice, ast.Name) \
+                        and len(st.targets) == 1 and isinstance(st.targets[0], ast.Name):
+                    sites.append((blk, st))
+                else:
+                    bad = True
+        if bad or not sites:
+            continue
+
+        class R(ast.NodeTransformer):
+            def visit_Name(self, x):
+                if x.id == S and isinstance(x.ctx, ast.Load):
+                    return ast.copy_location(ast.Attribute(value=ast.Name(id='self', ctx=ast.Load()), attr=F, ctx=ast.Load()), x)
+                return x
+        for blk, st in sites:
+            k = st.value.slice.id
+            i = next(j for j, y in enumerate(blk) if y is st)
+            val = R().visit(copy.deepcopy(E))
+            tbl = ast.Attribute(value=ast.Name(id='self', ctx=ast.Load()), attr=F, ctx=ast.Load())
+            guard = ast.If(test=ast.Compare(left=ast.Name(id=k, ctx=ast.Load()), ops=[ast.NotIn()], comparators=[tbl]),
+                           body=[ast.Assign(targets=[ast.Subscript(value=copy.deepcopy(tbl), slice=ast.Name(id=k, ctx=ast.Load()), ctx=ast.Store())], value=val)],
+                           orelse=[])
+            blk.insert(i, ast.fix_missing_locations(ast.copy_location(guard, st)))
+        for a in makes:
+            a.value = ast.copy_location(ast.Dict(keys=[], values=[]), a.value)
+        tree.body = [x for x in tree.body if x is not K]
+        n += 1
+    if n:
+        ast.fix_missing_locations(tree)
+    return n
+
+
+def merge_twin_branch_calls(tree: ast.Module) -> int:
+    """`if C: f(A) else: f(B)` - both arms the one statement, the same callee (a method of a plain name, e.g. `xs.append`), one
+    positional argument each - is `f(A if C else B)`: the test is evaluated first either way, then exactly one of A / B, then the call."""
+    n = 0
+    for blk in list(_blocks(tree)):
+        for i, st in enumerate(blk):
+            if not (isinstance(st, ast.If) and len(st.body) == 1 and len(st.orelse) == 1 and all(isinstance(x, ast.Expr) and isinstance(x.value, ast.Call)
+                                                                                                 for x in (st.body[0], st.orelse[0]))):
+                continue
+            a, b = st.body[0].value, st.orelse[0].value
+            if not (isinstance(a.func, ast.Attribute) and isinstance(a.func.value, ast.Name) and ast.unparse(a.func) == ast.unparse(b.func)
+                    and len(a.args) == 1 and len(b.args) == 1 and not a.keywords and not b.keywords
+                    and not isinstance(a.args[0], ast.Starred) and not isinstance(b.args[0], ast.Starred)):
+                continue
+            if any(isinstance(x, ast.Name) and x.id == a.func.value.id for x in ast.walk(st.test)):
+                continue                                   # the test reads the receiver: keep the statement as it is
+            call = ast.Call(func=a.func, args=[ast.IfExp(test=st.test, body=a.args[0], orelse=b.args[0])], keywords=[])
+            blk[i] = ast.fix_missing_locations(ast.copy_location(ast.Expr(value=call), st))
+            n += 1
+    return n
+
+
+def inline_private_procedures(tree: ast.Module) -> int:
+    """a private module-level procedure (`def _h(p, q): ...`, no value returned, at most five statements, no loops / nested
+    functions, parameters read-only, locals none) called as a statement `_h(a, b)` with plain names / attribute chains / constants as
+    arguments is its body at every call, the parameters replaced by the arguments (a bare `return` restructured into if / else).
+    Every reference to the helper must be such a call; the definition is then dropped."""
+    import copy
+    n = 0
+    for g in [x for x in list(tree.body) if isinstance(x, ast.FunctionDef) and x.name.startswith('_') and not x.name.startswith('__')]:
+        if g.decorator_list or g.args.vararg or g.args.kwarg or g.args.kwonlyargs or g.args.defaults or g.args.posonlyargs:
+            continue
+        body0 = [x for x in g.body if not (isinstance(x, ast.Expr) and isinstance(x.value, ast.Constant))]
+        if not body0 or len(body0) > 5:
+            continue
+        if any(isinstance(x, (ast.For, ast.While, ast.FunctionDef, ast.Lambda, ast.Yield, ast.YieldFrom, ast.Global, ast.Nonlocal, ast.Try, ast.With))
+               and x is not g for x in ast.walk(g)):
+            continue
+        if any(isinstance(x, ast.Return) and x.value is not None for x in ast.walk(g)):
+            continue
+        params = [a.arg for a in g.args.args]
+        if any(isinstance(x, ast.Name) and isinstance(x.ctx, (ast.Store, ast.Del)) for x in ast.walk(g)):
+            continue                                           # binds a local or a parameter
+        refs = [x for x in ast.walk(tree) if isinstance(x, ast.Name) and x.id == g.name]
+        sites = []
+        for blk in _blocks(tree):
+            for st in blk:
+                if isinstance(st, ast.Expr) and isinstance(st.value, ast.Call) and isinstance(st.value.func, ast.Name) and st.value.func.id == g.name:
+                    sites.append((blk, st))
+        def simple(e):
+            while isinstance(e, ast.Attribute):
+                e = e.value
+            return isinstance(e, (ast.Name, ast.Constant))
+        if not sites or len(sites) != len(refs) or any(c.value.keywords or len(c.value.args) != len(params) or not all(simple(a) for a in c.value.args)
+                                                        for _b, c in sites):
+            continue
+        flat = _eliminate_returns([copy.deepcopy(x) for x in body0])
+        if flat is None:
+            continue
+        for blk, st in sites:
+            sub = dict(zip(params, st.value.args))
+
+            class R(ast.NodeTransformer):
+                def visit_Name(self, x):
+                    if x.id in sub and isinstance(x.ctx, ast.Load):
+                        return ast.copy_location(copy.deepcopy(sub[x.id]), x)
+                    return x
+            new = [R().visit(copy.deepcopy(x)) for x in flat]
+            for x in new:
+                for y in ast.walk(x):
+                    if hasattr(y, 'lineno'):
+                        y.lineno = y.end_lineno = st.lineno
+                ast.fix_missing_locations(x)
+            i = next(j for j, y in enumerate(blk) if y is st)
+            blk[i:i + 1] = new
+            n += 1
+        tree.body = [x for x in tree.body if x is not g]
+    return n
+
+
+def unroll_callable_tuples(tree: ast.Module) -> int:
+    """`for f in (a.m1, a.m2, a.m3): f(args)` - the iterable a display (or a local bound once to one, just before the loop) of names
+    / attribute chains, the body the single statement calling the loop variable - is `a.m1(args); a.m2(args); a.m3(args)`."""
+    import copy
+    n = 0
+    for fn in [x for x in ast.walk(tree) if isinstance(x, ast.FunctionDef)]:
+        for blk in list(_blocks(fn)):
+            i = 0
+            while i < len(blk):
+                st = blk[i]
+                i += 1
+                if not (isinstance(st, ast.For) and isinstance(st.target, ast.Name) and not st.orelse and len(st.body) == 1
+                        and isinstance(st.body[0], ast.Expr) and isinstance(st.body[0].value, ast.Call) and isinstance(st.body[0].value.func, ast.Name)
+                        and st.body[0].value.func.id == st.target.id):
+                    continue
+                v = st.target.id
+                call = st.body[0].value
+                if any(isinstance(x, ast.Name) and x.id == v for a in list(call.args) + [k.value for k in call.keywords] for x in ast.walk(a)):
+                    continue
+                disp, drop = st.iter, None
+                if isinstance(disp, ast.Name) and i >= 2 and isinstance(blk[i - 2], ast.Assign) and len(blk[i - 2].targets) == 1 \
+                        and isinstance(blk[i - 2].targets[0], ast.Name) and blk[i - 2].targets[0].id == disp.id \
+                        and sum(1 for x in ast.walk(fn) if isinstance(x, ast.Name) and x.id == disp.id) == 2:
+                    drop, disp = blk[i - 2], blk[i - 2].value
+
+                def simple(e):
+                    while isinstance(e, ast.Attribute):
+                        e = e.value
+                    return isinstance(e, ast.Name)
+                if not (isinstance(disp, (ast.Tuple, ast.List)) and 1 <= len(disp.elts) <= 6 and all(simple(e) for e in disp.elts)):
+                    continue
+                if sum(1 for x in ast.walk(fn) if isinstance(x, ast.Name) and x.id == v) != 2:
+                    continue                                       # the loop variable is read after the loop
+                new = []
+                for e in disp.elts:
+                    c2 = copy.deepcopy(call)
+                    c2.func = copy.deepcopy(e)
+                    new.append(ast.fix_missing_locations(ast.copy_location(ast.Expr(value=c2), st)))
+                lo = i - 2 if drop is not None else i - 1
+                blk[lo:i] = new
+                i = lo + len(new)
+                n += 1
+    return n
+
+
+def restore_static_aliases(tree: ast.Module) -> int:
+    """`class C: name = staticmethod(_f)` with `_f` a private module-level function referenced only there is
+    `class C: @staticmethod def name(..): <body of _f>` - the function moved out of the class body and back."""
+    n = 0
+    for C in [c for c in ast.walk(tree) if isinstance(c, ast.ClassDef)]:
+        for i, st in enumerate(list(C.body)):
+            if not (isinstance(st, ast.Assign) and len(st.targets) == 1 and isinstance(st.targets[0], ast.Name) and isinstance(st.value, ast.Call)
+                    and isinstance(st.value.func, ast.Name) and st.value.func.id in ('staticmethod',) and len(st.value.args) == 1
+                    and isinstance(st.value.args[0], ast.Name)):
+                continue
+            fname = st.value.args[0].id
+            g = next((x for x in tree.body if isinstance(x, ast.FunctionDef) and x.name == fname), None)
+            if g is None or not fname.startswith('_') or g.decorator_list \
+                    or sum(1 for x in ast.walk(tree) if isinstance(x, ast.Name) and x.id == fname) != 1:
+                continue
+            g.name = st.targets[0].id
+            g.decorator_list = [ast.Name(id='staticmethod', ctx=ast.Load())]
+            tree.body = [x for x in tree.body if x is not g]
+            C.body[C.body.index(st)] = g
+            n += 1
+    if n:
+        ast.fix_missing_locations(tree)
+    return n
+
+
+def single_return_closure_to_lambda(tree: ast.Module) -> int:
+    """a local `def f(a, b): return E` (no decorator, defaults, star parameters; not recursive) whose only reference is ONE use as a
+    value (passed on, not called) is `lambda a, b: E` at that use"""
+    import copy
+    n = 0
+    for fn in [x for x in ast.walk(tree) if isinstance(x, ast.FunctionDef)]:
+        for g in [x for x in fn.body if isinstance(x, ast.FunctionDef)]:
+            body = [x for x in g.body if not (isinstance(x, ast.Expr) and isinstance(x.value, ast.Constant))]
+            if len(body) != 1 or not isinstance(body[0], ast.Return) or body[0].value is None or g.decorator_list \
+                    or g.args.vararg or g.args.kwarg or g.args.kwonlyargs or g.args.defaults or g.args.posonlyargs:
+                continue
+            refs = [x for x in ast.walk(fn) if isinstance(x, ast.Name) and x.id == g.name]
+            if len(refs) != 1 or any(refs[0] is y for y in ast.walk(g)):
+                continue
+            parents = {c: p for p in ast.walk(fn) for c in ast.iter_child_nodes(p)}
+            par = parents.get(refs[0])
+            if isinstance(par, ast.Call) and par.func is refs[0]:
+                continue                                           # called, not passed on
+            if any(isinstance(x, (ast.Yield, ast.YieldFrom, ast.Await, ast.NamedExpr)) for x in ast.walk(body[0].value)):
+                continue
+            lam = ast.Lambda(args=ast.arguments(posonlyargs=[], args=[ast.arg(arg=a.arg) for a in g.args.args], vararg=None, kwonlyargs=[],
+                                                kw_defaults=[], kwarg=None, defaults=[]), body=body[0].value)
+
+            class R(ast.NodeTransformer):
+                def visit_Name(self, x):
+                    return ast.copy_location(lam, x) if x is refs[0] else x
+            fn.body = [R().visit(b) if b is not g else b for b in fn.body]
+            fn.body = [b for b in fn.body if b is not g]
+            ast.fix_missing_locations(fn)
+            n += 1
     return n
